@@ -243,3 +243,9 @@ func catchPanic(f func()) (panicked bool, msg string) {
 	f()
 	return
 }
+
+// writeCase stores the inputs of case i so that a violation can name it as its replay.
+func writeCase(out string, i int, c interface{}) {
+	os.MkdirAll(filepath.Join(out, "cases"), 0755)
+	writeJSON(filepath.Join(out, "cases", fmt.Sprintf("%d.json", i)), c)
+}
